@@ -201,7 +201,7 @@ def generate(ctx):
             inp = {"replace": [str(t_old), str(t_new)], "via": via, "lens": lens}
             kind = "edit_parametric"
         else:
-            inpc = ao.mk_input(rng, max_rows=5, recipes=[l for l in gen.LAYOUTS if l != "missing_hidden"] + ["history"])
+            inpc = ao.mk_input(rng, max_rows=5, recipes=list(gen.LAYOUTS) + ["history"])
             if inpc.get("history_failed") or inpc["built"][0] != "ok":
                 continue
             arr = inpc["arr"]
